@@ -168,6 +168,7 @@ package main
 //@   ensures only-this-writer: wfailOn == store(old(wfailOn), outWriter, wfailOn[outWriter])
 //@   ensures out-grows: outN >= old(outN)
 //@   ensures touched-environment: envOps > old(envOps)
+//@   sets processedN := processedN + 1
 
 //@ func ProcessMongoLogFileFromReader
 //@   props C08
@@ -335,8 +336,9 @@ package main
 //@   local kf := *encryptionKeyFile
 //@   local encOn := enc && kf != ""
 //@   local keyValid := fsKind[kf] == 1 && b64ok(bstr(fsData[kf])) && blen(b64dec(bstr(fsData[kf]))) == 64
-//@   requires: effects == 0 && envOps == 0 && stderrN == 0 && tmp == emptyset && wfailOn == noFail && !scanErr && !openFail && !havePersisted
+//@   requires: processedN == 0 && effects == 0 && envOps == 0 && stderrN == 0 && tmp == emptyset && wfailOn == noFail && !scanErr && !openFail && !havePersisted
 //@   requires: len(args) <= 1 && !shouldEncrypt && encryptionKey == nil
+//@   loop 1 invariant every-downloaded-file-is-processed {C16}: processedN == _idx
 //@   loop 1 invariant temp-files {C17}: tmp == elemsS(elems(files), off(files), len(files)) && !scanErr && !openFail && wfailOn == store(store(noFail, os.Stdout, wfailOn[os.Stdout]), os.Stderr, wfailOn[os.Stderr])
 //@   loop 1 invariant ops {C18}: envOps > 0 && outN >= old(outN)
 //@   loop 1 invariant keyfile {C11}: implies(encOn && old(fsKind)[kf] != 0, fsWrites == old(fsWrites) && fsKind[kf] == old(fsKind)[kf] && fsData[kf] == old(fsData)[kf] && keyValid)
